@@ -11,7 +11,7 @@ from ..poly import P
 from .. import pysym, shims, absnp, eigctx
 from ..pysym import Interp, integer, real, to_z3, Cond, SymRaise
 from ..absnp import AArr, T
-from .c05 import mk, raise_signature, sizes_from_model
+from .c05 import mk, raise_signature, sizes_from_model, per_mode_multiple
 
 FQ = 'compmech/analysis/freq.py:freq'
 
@@ -162,6 +162,18 @@ def analyse(led, it, res, func, tag, sparse, Kt, Mt, replay):
                 ok_masks = [('mask', ('cmp', '!=', ('sum', 0, Mt), z_)) for z_ in (0, '0')] + [('mask', ('cmp', '>', ('abs', ('sum', 0, Mt)), z_)) for z_ in (0, '0')]
                 if rows is not None and rows not in ok_masks:
                     probs.append('modes are scattered into rows %r, expected the amplitudes whose mass column sum is non-zero' % (rows,))
+            # the modes handed back are the solver's eigenvectors, scattered into the active rows of a zero array; a factor per
+            # mode (a scalar, or a row vector broadcast down the columns) keeps K v = w^2 M v, anything else does not
+            if isinstance(mbase, tuple) and mbase and mbase[0] == 'store':
+                val = mbase[3] if len(mbase) > 3 else None
+                if mbase[1] != ('zeros',):
+                    probs.append('modes are scattered into %r, expected a zero array' % (mbase[1],))
+                if not per_mode_multiple(val, ('eigvecs', cid)):
+                    probs.append('the modes handed back are %r, expected the eigenvectors of the last solver call (up to a factor per mode)' % (val,))
+                if not (isinstance(mbase[2], tuple) and len(mbase[2]) == 2 and mbase[2][1] == 'all'):
+                    probs.append('modes are scattered with the selector %r, expected (active rows, all columns)' % (mbase[2],))
+            elif mbase != ('eigvecs', cid):
+                probs.append('modes are %r, expected the solver eigenvectors scattered into the active rows' % (mbase,))
             if vsel != msel:
                 probs.append('values and modes are selected differently: %r vs %r (pairing of column i with value i is lost)' % (vsel, msel))
         if probs:
